@@ -56,7 +56,11 @@ func processFile(exp Exporter, filename string) error {
 		ctx.files[filename] = blocks
 	}
 	loc := ctx.loc
-	defer func() { ctx.loc = loc }()
+	ctx.incFiles = append(ctx.incFiles, filename)
+	defer func() {
+		ctx.loc = loc
+		ctx.incFiles = ctx.incFiles[:len(ctx.incFiles)-1]
+	}()
 	ctx.loc = &location{curBlocks: blocks, curFile: filename}
 	processBlocks(exp)
 	return nil
